@@ -4,7 +4,7 @@
    Proofs/C06_proofs.v. *)
 From Coq Require Import ZArith List Bool Lia Permutation.
 From Model Require Import Base Seq Pairing.
-From Proofs Require Import C05_closest C05_proofs C06_proofs.
+From Proofs Require Import C05_closest C05_proofs C05_wf C06_proofs C06_main.
 Import ListNotations.
 Open Scope Z_scope.
 
@@ -52,3 +52,39 @@ Theorem C06_nonnote : forall l values std dne,
   Permutation (filter nonnote (quantise_note_lengths l values std dne)) (filter nonnote (sort_abs l)).
 Proof. exact C06_proofs.C06_nonnote. Qed.
 Print Assumptions C06_nonnote.
+
+(* the whole function on a well-formed list (wf_abs, see C05: sorted by time; per (channel, pitch) key the notes
+   alternate on/off, off strictly after on, next on not before the previous off), duplicate-free positive values:
+   (1) the output is well-formed again (notes of the same channel and pitch pair up and do not overlap, positive
+       durations), and
+   (2) per (channel, pitch) key k the note messages of the output (kproj k) are exactly the reference per-key quantiser
+       qnl_key applied to the key's input notes [on1; off1; on2; off2; ...]:  each (on, off) is either dropped -- iff no
+       allowed value v satisfies  onset + v <= onset of the next note of the key  and (do_not_extend) v <= current
+       duration -- or emitted as the unchanged note-on followed by the note-off with only its time changed to
+       onset + closest current-duration among those values.
+   Covers: onsets/pitch/channel/velocity unchanged, closest fitting duration, removal only when nothing fits,
+   no overlap, no extension with do_not_extend. *)
+Theorem C06_main : forall l values std dne,
+  wf_abs l = true -> nodupb values = true -> pos_steps values = true ->
+  wf_abs (quantise_note_lengths l values std dne) = true /\
+  forall k, kproj k (quantise_note_lengths l values std dne) = qnl_key values dne (kproj k l).
+Proof. exact C06_main.C06_main. Qed.
+Print Assumptions C06_main.
+
+(* clause "every remaining note has a duration from that list": per key, the consecutive (on, off) pairs of the output
+   have off - on in values *)
+Theorem C06_main_durations : forall l values std dne k,
+  wf_abs l = true -> nodupb values = true -> pos_steps values = true ->
+  Forall (fun d => In d values) (pair_durs (kproj k (quantise_note_lengths l values std dne))).
+Proof. exact C06_main.C06_main_durations. Qed.
+Print Assumptions C06_main_durations.
+
+(* clause "its onset, pitch, channel and velocity are unchanged": every note-on of the output is a note-on record of
+   the input, every note-off of the output is a note-off of the input with only its time changed *)
+Theorem C06_main_members : forall l values std dne m,
+  wf_abs l = true -> nodupb values = true -> pos_steps values = true ->
+  In m (quantise_note_lengths l values std dne) -> is_note m = true ->
+  (is_on m = true /\ In m l) \/
+  (is_on m = false /\ exists off, In off l /\ m = set_time off (m_time m) (m_tf off)).
+Proof. exact C06_main.C06_main_members. Qed.
+Print Assumptions C06_main_members.
